@@ -45,4 +45,9 @@ CHECKS = {
   "text": "Every decodable string of the structured byte space (incl. 0x66/0x67 forms, full ModRM grids, x87 and control transfers) whose mnemonic has lifted semantics is lifted; lifting must not raise and the assignment list must satisfy the well-formedness rules of the statement (assignment shape, operand-width agreement, slice bounds, Compose tiling, source/destination width with the 0/1-flag exception, no double write). All problems of an instruction are reported, each keyed by (rule, mnemonic, operand size).",
   "note": "Trusted: vlib/irtype.py. A wide source of a 1-bit flag is only refuted by sampling (24 valuations); sources containing uninterpreted operators are undecided and counted. ~240 existing lifter defects are listed as open known findings.",
  },
+ "C10": {
+  "technique": "enumeration of the byte space with truncation / junk-tail / stream-offset metamorphic relations, and Hypothesis fuzzing of the assembler with token sequences, structured lines and one-token mutations; crash oracle with the documented exception set",
+  "text": "Decoder: every window of the structured byte space plus random strings is decoded; exceptions, failing renderings (4 formats), accepted truncations, dependence on bytes after the instruction and wrong stream bookkeeping (offset 1..3) are failures. Assembler: asm and asm_att are called on generated token sequences (<= 8 tokens), on structured lines with boundary immediates and on one-token mutations of rendered instructions; anything but a list of byte strings, the (prefix, []) pair, or ValueError is a failure. Failures are bucketed by (entry point, exception type, innermost miasmx/ply function[, mnemonic]).",
+  "note": "Self-consistency only: a decoder that is consistently wrong about a length is C01's subject (reference decoder). Hangs: 20 s watchdog nominates, 3*10^6 executed lines under settrace confirms; C-level stalls are not detected by that second step. ~300 existing crash sites (mostly the AT&T renderer's missing mnemonics) are listed as open known findings.",
+ },
 }
